@@ -47,13 +47,17 @@ class Report:
         self.violations.append((rule + ":" + key if not key.startswith(rule + ":") else key, msg, where, detail))
 
     def floor(self, what, count, minimum):
-        self.floors.append({"what": what, "count": count, "floor": minimum})
-        if count < minimum:
+        """`minimum` is the instance count confirmed by hand on the reviewed tree. A rule that suddenly matches far fewer sites
+        passes vacuously, so a collapse fails the check; merging duplicated code or spelling two writes as one legitimately lowers
+        a count a little, so the alarm threshold is half the confirmed count (at least one instance)"""
+        threshold = max(1, (minimum + 1) // 2)
+        self.floors.append({"what": what, "count": count, "floor": minimum, "alarm_below": threshold})
+        if count < threshold:
             self.bad(
                 "floor",
                 "floor:" + what,
                 "-",
-                "instance count of '%s' fell to %d, below the floor %d confirmed by hand: the rule would pass vacuously"
+                "instance count of '%s' fell to %d, less than half of the %d confirmed by hand: the rule would pass (nearly) vacuously"
                 % (what, count, minimum),
             )
 
